@@ -1,0 +1,112 @@
+//go:build verif
+
+package dc
+
+import (
+	"github.com/deadsy/sdfx/sdf"
+	"github.com/deadsy/sdfx/vec/conv"
+	v3 "github.com/deadsy/sdfx/vec/v3"
+	"github.com/deadsy/sdfx/vec/v3i"
+)
+
+// Verification hooks for property C19 (dual contouring).  Add-only, compiled only with
+// the build tag "verif"; they call the unexported steps of the two renderers and return
+// the buffers the renderers build, without changing any behaviour.
+
+// VerifV1Mesh is what DualContouringV1.Render builds before it converts the index buffer
+// into triangles.
+type VerifV1Mesh struct {
+	CellCounts v3i.Vec   // power-of-two cell counts per axis (relToSDF maps them onto the bounding box)
+	MeshSize   int       // size of the cubic octree
+	Vertices   []v3.Vec  // vertex buffer (generateVertexIndices)
+	Cells      []v3i.Vec // minOffset of the leaf owning each vertex
+	Sizes      []int     // size of that leaf (1 without simplification)
+	Corners    []int     // its corner sign mask
+	Indices    []int     // index buffer (contourCellProc), three per triangle
+}
+
+// VerifV1Buffers runs the steps of DualContouringV1.Render up to the index buffer.
+func VerifV1Buffers(m *DualContouringV1, s sdf.SDF3, meshCells int) *VerifV1Mesh {
+	if m.RCond == 0 {
+		m.RCond = 1e-3
+	}
+	bbSize := s.BoundingBox().Size()
+	resolution := bbSize.MaxComponent() / float64(meshCells)
+	cells := conv.V3ToV3i(bbSize.DivScalar(resolution))
+	root := dcNewOctree(cells, m.RCond, m.LockVertices)
+	root.Populate(s)
+	if m.Simplify >= 0 {
+		root.Simplify(s, m.Simplify)
+	}
+	vertexBuffer := new([]v3.Vec)
+	indexBuffer := new([]int)
+	root.generateVertexIndices(vertexBuffer)
+	root.contourCellProc(indexBuffer)
+	out := &VerifV1Mesh{CellCounts: root.cellCounts, MeshSize: root.meshSize, Vertices: *vertexBuffer, Indices: *indexBuffer,
+		Cells: make([]v3i.Vec, len(*vertexBuffer)), Sizes: make([]int, len(*vertexBuffer)), Corners: make([]int, len(*vertexBuffer))}
+	var walk func(n *dcOctree)
+	walk = func(n *dcOctree) {
+		if n == nil {
+			return
+		}
+		if n.kind == dcOctreeNodeTypeInternal {
+			for _, c := range n.children {
+				walk(c)
+			}
+			return
+		}
+		i := n.drawInfo.index
+		out.Cells[i], out.Sizes[i], out.Corners[i] = n.minOffset, n.size, n.drawInfo.corners
+	}
+	walk(root)
+	return out
+}
+
+// VerifV1LatticePoint is relToSDF of the octree Render would build: the position of lattice index i.
+func VerifV1LatticePoint(m *DualContouringV1, s sdf.SDF3, meshCells int, i v3i.Vec) v3.Vec {
+	bbSize := s.BoundingBox().Size()
+	resolution := bbSize.MaxComponent() / float64(meshCells)
+	cells := conv.V3ToV3i(bbSize.DivScalar(resolution))
+	return dcNewOctree(cells, m.RCond, m.LockVertices).relToSDF(s, i)
+}
+
+// VerifV2Mesh is what DualContouringV2.Render builds: the vertices with their cells, and the
+// triangles of generateTriangles expressed in cell indices.
+type VerifV2Mesh struct {
+	Cells       v3i.Vec      // number of cells per axis (getCells)
+	BoxMin      v3.Vec       // sampled box (dcSdf.BoundingBox)
+	CellSize    v3.Vec       // size of one cell
+	Vertices    []v3.Vec     // vertex buffer (placeVertices)
+	VertexCells []v3i.Vec    // cell owning each vertex
+	Triangles   [][3]v3i.Vec // generateTriangles run on a vertex buffer holding the cell indices as positions
+}
+
+// VerifV2Buffers runs placeVertices, then generateTriangles on a copy of the vertex buffer in which
+// every position is replaced by its cell index (so the emitted triangles name the cells they join).
+func VerifV2Buffers(dc *DualContouringV2, s sdf.SDF3) *VerifV2Mesh {
+	_, cells := dc.getCells(s)
+	s2 := &dcSdf{s, map[v3.Vec]float64{}}
+	vertexBuffer, info, infoI := dc.placeVertices(s2, cells)
+	out := &VerifV2Mesh{Cells: cells, Vertices: vertexBuffer, VertexCells: make([]v3i.Vec, len(vertexBuffer))}
+	bb := s2.BoundingBox()
+	out.BoxMin = bb.Min
+	out.CellSize = bb.Size().Div(conv.V3iToV3(cells))
+	idx := make([]v3.Vec, len(vertexBuffer))
+	for _, vi := range info {
+		out.VertexCells[vi.bufIndex] = vi.cellIndex
+		idx[vi.bufIndex] = v3.Vec{X: float64(vi.cellIndex.X), Y: float64(vi.cellIndex.Y), Z: float64(vi.cellIndex.Z)}
+	}
+	ch := make(chan []*sdf.Triangle3, 3*len(info)+1)
+	dc.generateTriangles(s2, idx, info, infoI, ch)
+	close(ch)
+	for ts := range ch {
+		for _, t := range ts {
+			var q [3]v3i.Vec
+			for k := 0; k < 3; k++ {
+				q[k] = v3i.Vec{X: int(t[k].X), Y: int(t[k].Y), Z: int(t[k].Z)}
+			}
+			out.Triangles = append(out.Triangles, q)
+		}
+	}
+	return out
+}
